@@ -115,10 +115,10 @@ var authMethods = []string{"GET", "GET", "GET", "POST", "POST", "HEAD", "PUT", "
 var authFloors = map[string]int{
 	"auth_endpoint_sign_in": 30, "auth_endpoint_sign_out": 30, "auth_endpoint_start": 20, "auth_endpoint_callback": 30,
 	"auth_endpoint_redeem": 20, "auth_endpoint_refresh": 20, "auth_endpoint_profile": 20, "auth_endpoint_validate": 20,
-	"auth_status_200": 30, "auth_status_302": 30, "auth_status_400": 20, "auth_status_401": 20, "auth_status_403": 5, "auth_status_405": 20,
-	"auth_status_201": 3, "auth_status_500": 5, "auth_json_errors": 10,
+	"auth_status_200": 20, "auth_status_302": 30, "auth_status_400": 20, "auth_status_401": 20, "auth_status_403": 5, "auth_status_405": 20,
+	"auth_status_201": 3, "auth_status_500": 3, "auth_json_errors": 10,
 	"auth_set_cookie_session_set": 5, "auth_set_cookie_session_clear": 10, "auth_set_cookie_csrf_set": 10, "auth_set_cookie_csrf_clear": 3,
-	"auth_callback_success": 3, "auth_sign_in_code_issued": 5,
+	"auth_callback_success": 3, "auth_sign_in_code_issued": 3,
 }
 
 type authObs struct {
@@ -397,7 +397,7 @@ func runAuthCfg(rep *vh.Report, env vh.Env, c *authCfg, lo, n, only int) {
 			q := as.SignInQuery(proxyRedirect, "state-"+tag, time.Now().Unix())
 			var ck []string
 			flavour := ""
-			switch r.Intn(10) {
+			switch r.Intn(14) {
 			case 0:
 				flavour, q = "no-params", url.Values{}
 			case 1:
